@@ -211,7 +211,7 @@ def run_property(prop, tier, seed, replay=None):
         os.makedirs(env['VERIF_WORK'], exist_ok=True)
         if exclude:
             env['VERIF_EXCLUDE'] = ','.join(exclude)
-        env['RC_PARAMS'] = 'seed=%d max_success=%d max_size=%d noshrink=0' % (sseed, s.cases[tix], s.maxsize[tix])
+        env['RC_PARAMS'] = 'seed=%d max_success=%d max_size=%d noshrink=%d' % (sseed, s.cases[tix], s.maxsize[tix], 1 if s.kind == 'stress' else 0)
         for k, v in s.env.items():
             env[k] = str(v[tix]) if isinstance(v, (tuple, list)) else str(v)
         cmd = [bins[s.harness]] + [a if not isinstance(a, (tuple, list)) else str(a[tix]) for a in s.args]
